@@ -572,6 +572,53 @@ func inspectShallow(n ast.Node, f func(ast.Node) bool) {
 // Unlike facts these are not subject to kills: they describe the branch taken,
 // not what still holds.
 func (c *CFG) DominatingConds(pt Point) []*Term {
+	out := c.localDominatingConds(pt)
+	// a statement moved into an unexported helper with a single call site is still governed by the branches
+	// that govern that call: their conditions, with the arguments replaced by the helper's parameters
+	fi := c.fi
+	for depth := 0; depth < 2; depth++ {
+		caller, call, ok := c.p.singleCaller(fi)
+		if !ok {
+			break
+		}
+		cc := c.p.CFG(caller)
+		cpt, okp := cc.PointOf(call)
+		if !okp {
+			break
+		}
+		site := c.p.siteOf(call, caller)
+		var params []*types.Var
+		params = append(params, c.p.recvVar(fi))
+		if fi.Decl != nil {
+			for _, fl := range fi.Decl.Type.Params.List {
+				if len(fl.Names) == 0 {
+					params = append(params, nil)
+				}
+				for _, nm := range fl.Names {
+					v, _ := c.p.Info.Defs[nm].(*types.Var)
+					params = append(params, v)
+				}
+			}
+		}
+		args := append([]*Term{site.Recv}, site.Args...)
+		for _, ct := range cc.localDominatingConds(cpt) {
+			t := ct
+			if len(args) == len(params) {
+				for i, a := range args {
+					if a == nil || params[i] == nil || a.IsConst() {
+						continue
+					}
+					t = replaceByKey(t, a.Key(), tVar(params[i]))
+				}
+			}
+			out = append(out, normTerm(t))
+		}
+		fi = caller
+	}
+	return out
+}
+
+func (c *CFG) localDominatingConds(pt Point) []*Term {
 	var out []*Term
 	for _, b := range c.live {
 		if len(b.Succs) != 2 || b.Succs[0] == b.Succs[1] {
